@@ -78,7 +78,7 @@ def run(chk: core.Check, tier: str, seed: int) -> None:
         d = gen.rand_doc(rng, depth=rng.randint(1, 4), width=rng.randint(1, 4), names=names, p_container=0.75)
         dn = sorted(gen.names_in(d)) or list(names[:2])
         qg = gen.QueryGen(rng, dn, level=rng.choice([0, 1, 2]))
-        q = qg.query(depth=1, allow_filter=True) if k % 3 else "$" + rng.choice(["..*", "..[-1]", "..[::-1]", "[*][-1]", "..[?@]", ".*.*", "..a", "..[0]"])
+        q = qg.query(depth=1, allow_filter=True) if k % 3 else "$" + rng.choice(["", "", "..*", "..[-1]", "..[::-1]", "[*][-1]", "..[?@]", ".*.*", "..a", "..[0]"])      # ("$": the root node itself)
         try:
             ed = core.enc_value(d)
             nodes = (nd_env if k % 4 == 1 else jp).find(q, d)
